@@ -443,6 +443,36 @@ func (w *World) CheckOrdering(o *Obs) []Violation {
 			vs = append(vs, v("C12", "processor-not-exactly-once", strings.Fields(k)[0], fmt.Sprintf("%s: %d callbacks for %d processors: %v", k, len(seqs[k]), len(procs), ids(seqs[k]))))
 		}
 	}
+	// whenever the early-reference factory of a component produced a reference, every smart
+	// processor took part in producing it (the processor list is complete by then: programs with
+	// components that are themselves processors are left out)
+	hasProcComp := false
+	for _, t := range w.P.Types {
+		hasProcComp = hasProcComp || t.Proc
+	}
+	if !hasProcComp && len(o.Faults) == 0 {
+		earlyBy := map[string]map[string]int{}
+		for _, e := range evs {
+			if e.Kind == "early" {
+				p, n := procOf(e.Subj)
+				if earlyBy[n] == nil {
+					earlyBy[n] = map[string]int{}
+				}
+				earlyBy[n][p]++
+			}
+		}
+		for _, c := range o.Reg {
+			if c.Op != "efx" || c.Err || (o.EndOfRun > 0 && c.Seq > o.EndOfRun) || w.instByName(c.Name) == "" {
+				continue
+			}
+			for _, pr := range w.P.Procs {
+				if pr.Class == "smart" && earlyBy[c.Name][pr.ID] == 0 {
+					vs = append(vs, v("C12", "smart-processor-left-out-of-early-reference", c.Name, fmt.Sprintf("the early reference of %s was produced, but smart processor %s was not asked (GetEarlyBeanReference callbacks seen for %s: %v)", c.Name, pr.ID, c.Name, earlyBy[c.Name])))
+					break
+				}
+			}
+		}
+	}
 	// runners
 	var rs []participant
 	for _, e := range evs {
